@@ -73,6 +73,9 @@ def base_config_init(I, self, **kw):
     """Model of pulser.backend.EmulationConfig.__init__ (A4/A5): every keyword is stored in
     self._backend_options; `observables` and `noise_model` default to arbitrary values."""
     opts = dict(kw)
+    if isinstance(opts.get("backend_options"), dict):
+        # deprecated pulser keyword: a dict whose entries override the keyword options
+        opts.update(opts["backend_options"])
     opts.setdefault("observables", observables_seq(I))
     opts.setdefault("noise_model", noise_model_obj(I))
     opts.setdefault("initial_state", None)
@@ -103,43 +106,55 @@ def register(reg, prop="C33"):
     ))
 
     # ---- MPSConfig.__init__ -----------------------------------------------------------
-    def init_params(autosave_inf):
+    def legacy_options(I, n):
+        """the deprecated `backend_options={...}` keyword of pulser's BackendConfig: a dict whose
+        entries override the keyword options after MPSConfig took its own arguments"""
+        return {"backend_options": {"precision": I.ctx.fresh("bo.precision", "real"),
+                                    "extra_krylov_tolerance": I.ctx.fresh("bo.extra_krylov_tolerance", "real"),
+                                    "autosave_dt": I.ctx.fresh("bo.autosave_dt", "real")}}
+
+    def init_params(variant):
         return {
             "self": lambda I, n: mps_config_obj(I, n, with_options=False),
             "dt": "real", "precision": "real", "max_bond_dim": "int", "max_krylov_dim": "int",
             "extra_krylov_tolerance": "real", "num_gpus_to_use": "int?",
             "optimize_qubit_ordering": "bool", "interaction_cutoff": "real", "log_level": "int",
             "log_file": "opaque", "autosave_prefix": "str",
-            "autosave_dt": (lambda I, n: Inf(1)) if autosave_inf else "real",
+            "autosave_dt": (lambda I, n: Inf(1)) if variant == "inf" else "real",
             "solver": lambda I, n: EnumV("Solver", common._enum_member(I, "solver", ["TDVP", "DMRG"])),
-            "kwargs": lambda I, n: {},
+            "kwargs": legacy_options if variant == "legacy" else (lambda I, n: {}),
         }
-    for inf in (False, True):
+    safeguards = [
+        # safeguard 1: an autosave interval of 10 s or less never yields a configuration
+        "opt(self, 'autosave_dt') > 10",
+        # safeguard 2: the effective Krylov tolerance (of the options actually stored) is >= 1e-12
+        "implies(opt(self, 'precision') > 0,"
+        " opt(self, 'precision') * opt(self, 'extra_krylov_tolerance') >= 1e-12)",
+        # safeguard 3: reordering is off whenever an observable outside the whitelist is requested
+        "forall(lambda k: implies(self.observables[k]._base_tag not in ALLOWED_TAGS,"
+        " not opt(self, 'optimize_qubit_ordering')), 0, len(self.observables))",
+        "implies(not optimize_qubit_ordering, not opt(self, 'optimize_qubit_ordering'))",
+    ]
+    plain = [
+        "implies(precision * extra_krylov_tolerance >= 1e-12,"
+        " opt(self, 'extra_krylov_tolerance') == extra_krylov_tolerance)",
+        # the other options are stored as given
+        "opt(self, 'precision') == precision and opt(self, 'dt') == dt",
+        "opt(self, 'max_bond_dim') == max_bond_dim and opt(self, 'solver') == solver",
+    ]
+    for variant in ("", "inf", "legacy"):
         reg.add_contract(Contract(
             f"{CFG}:MPSConfig.__init__", property=prop,
-            label="MPSConfig.__init__" + ("[autosave_dt=inf]" if inf else ""),
-            params=init_params(inf),
+            label="MPSConfig.__init__" + {"": "", "inf": "[autosave_dt=inf]",
+                                          "legacy": "[backend_options dict]"}[variant],
+            params=init_params(variant),
             requires=[],
-            raises={"AssertionError": "not (autosave_dt > 10)",
-                    "ZeroDivisionError": "precision == 0"},
-            raises_when={} if inf else {"AssertionError": "not (autosave_dt > 10)"},
+            raises={"AssertionError": None, "ZeroDivisionError": None} if variant == "legacy" else
+                   {"AssertionError": "not (autosave_dt > 10)", "ZeroDivisionError": "precision == 0"},
+            raises_when={"AssertionError": "not (autosave_dt > 10)"} if variant == "" else {},
             policies={f"{CFG}:MPSConfig.monkeypatch_observables": _monkeypatch_model},
-            ensures=[
-                # safeguard 1: an autosave interval of 10 s or less never yields a configuration
-                "opt(self, 'autosave_dt') > 10",
-                # safeguard 2: the effective Krylov tolerance is at least 1e-12
-                "implies(precision > 0, precision * opt(self, 'extra_krylov_tolerance') >= 1e-12)",
-                "implies(precision * extra_krylov_tolerance >= 1e-12,"
-                " opt(self, 'extra_krylov_tolerance') == extra_krylov_tolerance)",
-                # safeguard 3: reordering is off whenever an observable outside the whitelist is requested
-                "forall(lambda k: implies(self.observables[k]._base_tag not in ALLOWED_TAGS,"
-                " not opt(self, 'optimize_qubit_ordering')), 0, len(self.observables))",
-                "implies(not optimize_qubit_ordering, not opt(self, 'optimize_qubit_ordering'))",
-                # the other options are stored as given
-                "opt(self, 'precision') == precision and opt(self, 'dt') == dt",
-                "opt(self, 'max_bond_dim') == max_bond_dim and opt(self, 'solver') == solver",
-            ],
-        ), callsite=not inf)
+            ensures=safeguards + (plain if variant != "legacy" else []),
+        ), callsite=(variant == ""))
 
     # ---- create_impl / DMRGBackendImpl.__init__ ----------------------------------------
     reg.add_contract(Contract(
